@@ -7,6 +7,8 @@ options for a specific platform.
 
 import os
 
+from codebasin import util
+
 
 class Platform:
     """
@@ -100,7 +102,7 @@ class Platform:
 
         # Determine the path to the include file, if it exists
         for path in local_paths + self._include_paths:
-            test_path = os.path.abspath(os.path.join(path, filename))
+            test_path = util.abspath(os.path.join(path, filename))
             if os.path.isfile(test_path):
                 include_file = test_path
                 self.found_incl[key] = include_file
